@@ -15,6 +15,7 @@ func init() { register("Globals", genGlobals) }
 // that write it (assignment to the identifier, to one of its fields / elements, ++/--, or taking its
 // address), so that a new piece of process-wide mutable state shows up as a new row.
 func genGlobals(repo string) (string, error) {
+	globalsRepo = repo
 	var b strings.Builder
 	b.WriteString("From Coq Require Import List String Bool.\nImport ListNotations.\nOpen Scope string_scope.\n\n")
 	b.WriteString("(* (package, variable, initialiser kind, functions that write it) *)\nDefinition globals : list (string * string * string * list string) := [\n")
@@ -229,16 +230,30 @@ func flatType(p *pkgSrc, t ast.Expr, depth int) bool {
 		return true
 	case *ast.ArrayType:
 		return x.Len != nil && flatType(p, x.Elt, depth+1)
+	case *ast.SelectorExpr:
+		// a type of another package of this repository (document.CellAlignment)
+		if pk, ok := x.X.(*ast.Ident); ok && globalsRepo != "" {
+			for _, dir := range []string{"document", "style", "markdown"} {
+				if dir == pk.Name {
+					if q, err := loadPkg(filepath.Join(globalsRepo, "pkg", dir)); err == nil {
+						return flatType(q, x.Sel, depth+1)
+					}
+				}
+			}
+		}
 	}
 	return false
 }
+
+var globalsRepo string
 
 // flatTable: a map, slice or array literal whose keys and elements are of flat types and whose values are written
 // without calls, function literals or address-of
 func flatTable(p *pkgSrc, cl *ast.CompositeLit) bool {
 	switch t := cl.Type.(type) {
 	case *ast.MapType:
-		if !flatType(p, t.Key, 0) || !flatType(p, t.Value, 0) {
+		// (a key is a copy: whatever its type, nothing in the table can be changed through it)
+		if !flatType(p, t.Value, 0) {
 			return false
 		}
 	case *ast.ArrayType:
@@ -271,8 +286,18 @@ func flatTable(p *pkgSrc, cl *ast.CompositeLit) bool {
 // escapes: the variable is used somewhere other than as the operand of an index expression, of a range clause or of
 // len/cap (so that a reference to it may be kept or handed on)
 func escapes(p *pkgSrc, name string) bool {
+	if escapesIn(p, p.allFuncs(), name, 0) {
+		return true
+	}
+	return mentionedInInitialisers(p, name)
+}
+
+// escapesIn: within the given functions, the name (a package-level table, or a parameter that received one) is used
+// other than as the operand of an index expression, a range clause, len/cap, a read-only call of the standard library,
+// or as the argument of a function of the package whose parameter is itself only used in these ways
+func escapesIn(p *pkgSrc, fds []*ast.FuncDecl, name string, depth int) bool {
 	esc := false
-	for _, fd := range p.allFuncs() {
+	for _, fd := range fds {
 		if fd.Body == nil {
 			continue
 		}
@@ -298,9 +323,24 @@ func escapes(p *pkgSrc, name string) bool {
 						break
 					}
 					// functions of the standard library that only read the slice they are handed
-					if !readOnlyStdCalls[exprStringDeep(par.Fun)] || ast.Expr(id) == par.Fun {
-						esc = true
+					if readOnlyStdCalls[exprStringDeep(par.Fun)] && ast.Expr(id) != par.Fun {
+						break
 					}
+					// a function of the package whose parameter at that position is only read
+					if fid, ok := par.Fun.(*ast.Ident); ok && depth < 3 {
+						if callee := p.funcDecl("", fid.Name); callee != nil && callee.Recv == nil && callee.Body != nil {
+							argPos := -1
+							for ai, a := range par.Args {
+								if a == ast.Expr(id) {
+									argPos = ai
+								}
+							}
+							if pn := paramName(callee, argPos); pn != "" && !writtenIn(callee, pn) && !escapesIn(p, []*ast.FuncDecl{callee}, pn, depth+1) {
+								break
+							}
+						}
+					}
+					esc = true
 				case *ast.SelectorExpr:
 					if par.Sel == id {
 						// a field or method that happens to have the same name
@@ -319,7 +359,12 @@ func escapes(p *pkgSrc, name string) bool {
 			return true
 		})
 	}
-	// other package-level initialisers that mention it
+	return esc
+}
+
+// mentionedInInitialisers: another package-level initialiser mentions the name
+func mentionedInInitialisers(p *pkgSrc, name string) bool {
+	esc := false
 	for _, fn := range p.sortedFiles() {
 		for _, d := range p.files[fn].Decls {
 			gd, ok := d.(*ast.GenDecl)
@@ -364,3 +409,70 @@ func methodCalledOn(p *pkgSrc, name string) bool {
 
 var readOnlyStdCalls = map[string]bool{"bytes.HasPrefix": true, "bytes.HasSuffix": true, "bytes.Equal": true, "bytes.Contains": true,
 	"bytes.Index": true, "bytes.Compare": true, "strings.Join": true, "bytes.IndexByte": true}
+
+// paramName: the name of the parameter at position pos ("" when there is none or the function is variadic there)
+func paramName(fd *ast.FuncDecl, pos int) string {
+	if pos < 0 || fd.Type.Params == nil {
+		return ""
+	}
+	k := 0
+	for _, prm := range fd.Type.Params.List {
+		if _, variadic := prm.Type.(*ast.Ellipsis); variadic {
+			return ""
+		}
+		for _, n := range prm.Names {
+			if k == pos {
+				return n.Name
+			}
+			k++
+		}
+	}
+	return ""
+}
+
+// writtenIn: the function assigns to the name, through it, takes its address or deletes from it
+func writtenIn(fd *ast.FuncDecl, name string) bool {
+	root := func(e ast.Expr) string {
+		for {
+			switch x := e.(type) {
+			case *ast.Ident:
+				return x.Name
+			case *ast.SelectorExpr:
+				e = x.X
+			case *ast.IndexExpr:
+				e = x.X
+			case *ast.StarExpr:
+				e = x.X
+			case *ast.ParenExpr:
+				e = x.X
+			default:
+				return ""
+			}
+		}
+	}
+	w := false
+	ast.Inspect(fd.Body, func(n ast.Node) bool {
+		switch x := n.(type) {
+		case *ast.AssignStmt:
+			for _, l := range x.Lhs {
+				if root(l) == name {
+					w = true
+				}
+			}
+		case *ast.IncDecStmt:
+			if root(x.X) == name {
+				w = true
+			}
+		case *ast.UnaryExpr:
+			if x.Op == token.AND && root(x.X) == name {
+				w = true
+			}
+		case *ast.CallExpr:
+			if id, ok := x.Fun.(*ast.Ident); ok && (id.Name == "delete" || id.Name == "append" || id.Name == "copy" || id.Name == "clear") && len(x.Args) > 0 && root(x.Args[0]) == name {
+				w = true
+			}
+		}
+		return true
+	})
+	return w
+}
